@@ -9,7 +9,7 @@ from . import trajgen as G
 RULE = ("trajectories whose altitude segments are constant, linear or well-conditioned cubic (cubic coefficient >= 5% of the "
         "larger of the quadratic and linear ones), 1..7 segments (also preceded by a hover long enough to put the climb beyond byte offset 65536), scales {1,2,10}; parameter triples: ascent from 0 to above the "
         "highest altitude (never reached), speeds and accelerations incl. infinite acceleration and every invalid combination "
-        "(negative, zero, NaN, infinite); a class of segments that overshoot the target and end exactly on it (finding D20). Non-trivial = a crossing exists and the parameters are valid.")
+        "(negative, zero, NaN, infinite); a class aimed at the closed forms (climb from rest at constant acceleration: linear and cubic coefficient exactly zero; deceleration to rest; a linear climb stored as a cubic); a class of segments that overshoot the target and end exactly on it (finding D20). Non-trivial = a crossing exists and the parameters are valid.")
 EXPLANATION = ("invalid parameters / no crossing: infinity on both interfaces; otherwise earliest_above within the certified box "
                "[S + a d, S + b d] widened by 1% of the segment duration for cubic segments (float Cardano) or 1e-5 relative otherwise; "
                "takeoff = earliest - travel time (travel time modelled bit-exactly); the statistics interface equals the proposal")
@@ -46,6 +46,32 @@ def cases(rng, tier):
             v = rng.choice([2.0, 1.0, 500.0, f32(rng.uniform(0.1, 3000))] + ([0.0, -1.0, float("nan"), float("inf")] if rng.random() < 0.15 else []))
             a = rng.choice([4.0, 1.0, float("inf"), 2000.0, f32(rng.uniform(0.1, 5000))] + ([0.0, -2.0, float("nan")] if rng.random() < 0.15 else []))
             yield ("stats takeoff %s %s %s %s" % (b, fhex(h), fhex(v), fhex(a)), "long-block" if long else "gen")
+    # aimed at the closed forms behind touches: a climb from rest at constant acceleration (cubic Bezier z0, z0, z0+A/3,
+    # z0+A = the quadratic z0 + A u^2: the linear and the cubic coefficient are exactly zero in binary32), its mirror
+    # (deceleration to rest) and a pure linear climb stored as a cubic, with the target inside the segment
+    for i in range(n // 10):
+        scale = rng.choice([1, 1, 2])
+        z0 = rng.choice([0, 0, 600, rng.randint(0, 300)])
+        A = 3 * rng.choice([100, 1000, 333, 2500, rng.randint(10, 3000)])
+        kind = rng.choice(["accel", "accel", "decel", "linear"])
+        if kind == "accel":
+            zs = [z0, z0 + A // 3, z0 + A]
+        elif kind == "decel":
+            zs = [z0 + 2 * A // 3, z0 + A, z0 + A]
+        else:
+            zs = [z0 + A // 3, z0 + 2 * A // 3, z0 + A]
+        if max(zs) > 32767:
+            continue
+        segs = []
+        if rng.random() < 0.5:
+            segs.append(dict(dur=rng.choice([1000, 4000]), x=[rng.randint(-500, 500)], y=[], z=[], yaw=[]))
+        segs.append(dict(dur=rng.choice([2000, 4000, 10000]), x=[], y=[], z=zs, yaw=[]))
+        segs.append(dict(dur=5000, x=[], y=[], z=[zs[-1] + 1000], yaw=[]))
+        tr = dict(scale=scale, use_yaw=False, start=[0, 0, z0, 0], segs=segs)
+        for fr in (0.25, 0.5, rng.uniform(0.05, 0.95), 1.2):
+            h = f32(A * scale * fr)
+            yield ("stats takeoff %s %s %s %s" % (hexs(G.encode(tr)), fhex(h), fhex(rng.choice([1000.0, 2.0e6])), fhex(rng.choice([float("inf"), 1.0e6]))),
+                   "closed-form-" + kind)
     # aimed: a segment whose altitude reaches the target inside it AND ends exactly on it (overshoot that settles on
     # the takeoff altitude): quadratic profiles z0 + h((1+r)/r u - u^2/r), r the parameter of the first crossing,
     # stored as cubics with integer control points
@@ -78,6 +104,9 @@ INF = 0x7f800000
 def compare(case, om, oi):
     if om.startswith("init:"):
         return None if oi.startswith("init:") else "model=%s impl=%s" % (om, oi)
+    for tok in oi.split(" "):
+        if tok.startswith("masks=") and tok != "masks=same":
+            return "the statistics depend on which other components are computed in the same pass: %s" % tok
     f = oi.split(" ")
     tk = int(f[0][8:], 16)
     st = f[1][6:].split(":")
